@@ -187,7 +187,9 @@ IPVFUTURE_HOSTS = ["v1.x", "vF.a:b", "v1a.~"]
 # bracketed texts that are NOT hosts (a bracket inside the brackets, a doubled bracket): URL texts only, never a "valid host" pool
 BRACKET_ODD_HOSTS = ["[v1.a[b]", "[v1.x:y[]", "[fe80::1%eth[]", "[[::1]", "[v1.[a]", "[::1]]", "[a@[::1]",
                      # a bracket pair that SPANS the '@': opened in the userinfo, closed at an edge of the host
-                     "[user:pw@example.com]", "[u:p@]example.com", "[:@h]", "[a:b@c:d]"]
+                     "[user:pw@example.com]", "[u:p@]example.com", "[:@h]", "[a:b@c:d]",
+                     # a bracketed IPv4 address / reg-name whose ZONE holds the ':' (D35)
+                     "[1.2.3.4%x:y]", "[1.2.3.4%:]", "[127.0.0.1%25eth0:1]", "[h%x:y]", "[::1%x:y]"]
 
 
 def long_urls():
